@@ -16,8 +16,9 @@ import (
 // text/template works by reflection and cannot be executed symbolically, so
 // rendering is split by contract: the g20* functions below re-state each
 // template as a concatenation of its literal pieces and the (symbolic) field
-// values, including the byte-wise restatement of the sanitize / vclstring /
-// oneline helpers; in every native replay of a path (translator validation
+// values; the vclstring / oneline helpers are the REAL functions of
+// snippet/template.go (executed symbolically), sanitize is restated byte-wise
+// (the real one is a regular-expression replacement); in every native replay of a path (translator validation
 // and violation replay) the same concrete values are rendered with the REAL
 // templates (renderDictionary, renderAcl, renderBackend, renderDirector) and
 // the two texts must be identical, which validates the contract.  The
@@ -34,34 +35,10 @@ func g20Sanitize(s string) string {
 	return string(b)
 }
 
-func g20VclString(s string) string {
-	var sb strings.Builder
-	for i := 0; i < len(s); i++ {
-		switch s[i] {
-		case '%':
-			sb.WriteString("%25")
-		case '"':
-			sb.WriteString("%22")
-		case '\r':
-			sb.WriteString("%0D")
-		case '\n':
-			sb.WriteString("%0A")
-		default:
-			sb.WriteByte(s[i])
-		}
-	}
-	return sb.String()
-}
+// the REAL helper functions of snippet/template.go, executed symbolically
+func g20VclString(s string) string { return helperFuncs["vclstring"].(func(string) string)(s) }
 
-func g20OneLine(s string) string {
-	b := []byte(s)
-	for i, c := range b {
-		if c == '\r' || c == '\n' {
-			b[i] = ' '
-		}
-	}
-	return string(b)
-}
+func g20OneLine(s string) string { return helperFuncs["oneline"].(func(string) string)(s) }
 
 func g20Dictionary(d *Dictionary) string {
 	var sb strings.Builder
